@@ -81,6 +81,9 @@ func (c *escapeCallsiteInfoImpl) Resolve(callee *ssa.Function) dataflow.EscapeCa
 	}
 	nodes := calleeSummary.nodes
 	g := NewEmptyEscapeGraph(nodes)
+	// The globals and static functions referenced by the callee are part of every context (as in the initial
+	// graph of the callee's own analysis); without them, accesses to globals in the callee would appear local.
+	addGlobalObjectNodes(callee, g)
 	// Copy over nodes into g that are reachable from the arguments.
 	mappedNodes := map[*Node]bool{}
 	var mapNode func(*Node, *Node)
